@@ -67,8 +67,13 @@ def gen_program(rng: random.Random, ntasks: int, steps_per_task: int) -> list[di
             body.append(gate(task))
             if depth < 3 and rng.random() < 0.7:
                 g.bid += 1
-                kind = rng.choice(["sscope", "updated", "updated", "ascope"])
+                kind = rng.choice(["sscope", "updated", "updated", "ascope", "ascope"])
                 blk = {"op": "block", "kind": kind, "name": f"{task}b{g.bid}", "supply": supply(), "body": []}
+                if kind == "ascope" and rng.random() < 0.5:
+                    # state arriving through disposables (sometimes the only state of the scope)
+                    blk["disposables"] = [{"yield": [[t, g.fresh_uid()] for t in types if rng.random() < 0.6], "enter": rng.choice(["ok", "gate"]), "exit": "ok", "form": rng.choice(["auto", "list"])}]
+                    if rng.random() < 0.6:
+                        blk["supply"] = []
                 sub = [min(nops[0], rng.randint(0, 2))]
                 nops[0] -= sub[0]
                 blk["body"] = task_body(task, sub, depth + 1)
@@ -101,6 +106,10 @@ def gen_program(rng: random.Random, ntasks: int, steps_per_task: int) -> list[di
             if depth < 2 and rng.random() < 0.5:
                 g.bid += 1
                 blk = {"op": "block", "kind": rng.choice(["sscope", "updated", "ascope"]), "name": f"pb{g.bid}", "supply": supply(), "body": []}
+                if blk["kind"] == "ascope" and rng.random() < 0.4:
+                    blk["disposables"] = [{"yield": [[t, g.fresh_uid()] for t in types if rng.random() < 0.6], "enter": "ok", "exit": "ok"}]
+                    if rng.random() < 0.5:
+                        blk["supply"] = []
                 blk["body"] = [g.probe(), *parent_level(depth + 1, budget), g.probe()]
                 out.append(blk)
             out.append(g.probe())
